@@ -351,11 +351,11 @@ impl Property for C18 {
         "C18"
     }
     fn cases(&self, cfg: &Cfg) -> u64 {
-        cfg.tier.pick(600, 60_000) + cfg.tier.pick(150, 15_000) + cfg.tier.pick(320, 32_000)
+        cfg.tier.pick(3_000, 60_000) + cfg.tier.pick(600, 15_000) + cfg.tier.pick(1_600, 32_000)
     }
     fn run_case(&self, cfg: &Cfg, i: u64, acc: &mut Acc) {
-        let a = cfg.tier.pick(600, 60_000);
-        let b = cfg.tier.pick(150, 15_000);
+        let a = cfg.tier.pick(3_000, 60_000);
+        let b = cfg.tier.pick(600, 15_000);
         if i < a {
             self.greeting_case(cfg, i, acc);
         } else if i < a + b {
